@@ -34,3 +34,11 @@ Print Assumptions C06_response_partial.
 Example ex_C06_single_send_truncates :
   exists d : str, fst (ssl_send d) <> d.
 Proof. exact Tls_proofs.single_send_truncates. Qed.
+
+(* the listening sockets (table regenerated from the source by translate/tlsconf.py) leave asyncio's TLS handshake and
+   shutdown timeouts at their defaults: how long a slow reader may take to drain a response after close() (C06), and how
+   long a silent peer may sit in the handshake on the standard-library backend (C15), are asyncio's constants *)
+From NV Require Gen.TlsConfigGen Proofs.TlsListeners.
+Theorem C06_listeners_default_timing : TlsListeners.default_tls_timing TlsConfigGen.listener_options = true.
+Proof. exact TlsListeners.listeners_default_timing. Qed.
+Print Assumptions C06_listeners_default_timing.
